@@ -347,6 +347,8 @@ def run_shard(shard, rec):
                 for ai in range(shard["nattrs"]):
                     attrs = ATTR_SHAPES[(ci + ai) % len(ATTR_SHAPES)]
                     for kind in KINDS:
+                        if rec.should_stop(40):
+                            break
                         if kind.startswith("stream") and issubclass(cls, (StopIteration, StopAsyncIteration)):
                             continue
                         tokn[0] += 1
